@@ -79,8 +79,16 @@ func Sqrt(a B) B {
 		return B{0, 0}
 	}
 	lo := a.V - a.E
-	if !(lo > 0) {
+	if a.V+a.E < 0 {
 		return Bad()
+	}
+	if !(lo > 0) {
+		// the radicand's ball reaches zero: the true root lies in [0, sqrt(V+E)], which is a
+		// perfectly good (if wide) ball - a standard deviation of a flat window is "about 0",
+		// not undefined
+		hi := math.Sqrt(math.Max(a.V, 0) + a.E)
+		v := math.Sqrt(math.Max(a.V, 0))
+		return fin(v, hi+ulp(hi))
 	}
 	v := math.Sqrt(a.V)
 	return fin(v, a.E/(2*math.Sqrt(lo))+ulp(v))
